@@ -215,7 +215,7 @@ class C18(Prop):
             return ['c', p, k, conv]
         if inputs and handles and rng.random() < 0.25:
             k = rng.randrange(len(handles))
-            if handles[k][0] == 'group' and rng.random() < 0.6:
+            if handles[k][0] == 'group' and rng.random() < 0.45:
                 return ['m', k, rng.choice(handles[k][1])]
             return ['h', k]
         p = rng.randrange(j)
@@ -330,7 +330,7 @@ class C18(Prop):
                     ref = None
                     if r < 0.25 and handles:
                         k = rng.randrange(len(handles))
-                        if handles[k][0] == 'group' and rng.random() < 0.6:
+                        if handles[k][0] == 'group' and rng.random() < 0.4:
                             ref = ['m', k, rng.choice(handles[k][1]) if rng.random() < 0.97 else 'nope']
                         else:
                             ref = ['h', k]
@@ -700,6 +700,22 @@ class C18(Prop):
                 return ('interp', f'job {ji} command {ci}: expected {expected!r}, submitted {actual!r}')
             if expected.strip() not in jobs[ji]['cmd']:
                 return ('interp', f'job {ji} command {ci} is not part of the submitted shell command')
+        # (1b) a bash command that names a whole *input* resource group reads <group path>.<identifier>: inside THIS job's container
+        # each of these must be a link, created by this job's own command prefix, to a file this job downloads
+        for (ji, ci, pieces) in r['mentions']:
+            if ci is None:
+                continue
+            for p in pieces:
+                if p[0] == 'r' and isinstance(p[1], resource.ResourceGroup) and p[1]._source is None:
+                    root = p[1]._get_path(local)
+                    dsts = {b for _, b in jobs[ji]['in']}
+                    for ident, f in p[1]._resources.items():
+                        link = (f._get_path(local), f'{root}.{ident}')
+                        if link not in jobs[ji]['sym']:
+                            return ('links', f'job {ji} command {ci} reads {root}.{ident} but its own command creates no link there '
+                                             f'(links of this job: {jobs[ji]["sym"]})')
+                        if link[0] not in dsts:
+                            return ('links', f'job {ji}: {root}.{ident} links to {link[0]} but nothing is downloaded there')
         # (2)+(3) producer uploads where the consumer downloads; consumer is a child of the producer
         for (ji, ci, pieces) in r['mentions']:
             for p in pieces:
